@@ -494,7 +494,7 @@ def check_binary(ctx, table, case):
 # ------------------------------------------------------------------ driver ----
 def run(ctx):
     rng = ctx.rng(1)
-    nrep = 150 if ctx.tier == "quick" else 1500
+    nrep = 150 if ctx.tier == "quick" else 5000
     for it in range(nrep):
         if ctx.out_of_time():
             ctx.notes.append(f"score loop stopped at {it}")
@@ -549,7 +549,7 @@ def run(ctx):
         run_identities_case(ctx, {"kind": "ident", "obs": obs, "sim": sim,
                                   "trans": [tnm, tkw], "affine": [a, b]})
     # confusion matrices
-    ncm = 150 if ctx.tier == "quick" else 1500
+    ncm = 150 if ctx.tier == "quick" else 5000
     for it in range(ncm):
         K = int(rng.integers(2, 7))
         n = int(rng.integers(1, 60))
@@ -588,7 +588,7 @@ def run(ctx):
         ctx.evaluated()
         tb = [[t[0], t[1]], [t[2], t[3]]]
         check_binary(ctx, tb, {"kind": "binary", "table": tb})
-    for it in range(40 if ctx.tier == "quick" else 400):
+    for it in range(40 if ctx.tier == "quick" else 2000):
         ctx.evaluated()
         ctx.tag("binary:large")
         mx = int(10 ** rng.uniform(1, 6.5))
